@@ -7,12 +7,10 @@ import (
 	"runtime"
 	"strconv"
 	"strings"
-	"sync/atomic"
 	"testing"
 	"time"
 )
 
-var busy atomic.Bool
 var checkGID = os.Getenv("VERIF_CHECKGID") == "1"
 
 type wlAgg struct {
@@ -212,7 +210,7 @@ func replay(t *testing.T, outPath string) {
 	in := readOutcome(os.Getenv("VERIF_IN"))
 	wl := findWorkload(in.Prop, in.Workload)
 	tape := in.Tape
-	if tape == nil {
+	if tape == nil && !in.FromSeed {
 		tape = []int32{}
 	}
 	o := RunOne(t, wl, in.Seed, tape, true)
